@@ -401,11 +401,10 @@ Qed.
 (* ------------------------------------------------------------------ one shard's error aborts the sharded search *)
 Lemma isolation_refuted :
   exists h c, load_shard (mmap_file iso_healthy) false = Ok h /\ load_shard (mmap_file witness_oob) false = Ok c
-    /\ (exists r, sharded_search [h] = Ok (r, 0) /\ r <> [])
-    /\ shard_search c = Err E_OOB
-    /\ sharded_search [h; c] = Err E_OOB.
+    /\ sharded_search [h] iso_ngram = Ok ([[8]], 0)
+    /\ shard_ngram_search c iso_ngram = Err E_OOB
+    /\ sharded_search [h; c] iso_ngram = Err E_OOB.
 Proof.
   eexists. eexists. split; [vm_compute; reflexivity|]. split; [vm_compute; reflexivity|].
-  split; [eexists; split; [vm_compute; reflexivity|discriminate]|].
-  split; vm_compute; reflexivity.
+  split; [vm_compute; reflexivity|]. split; vm_compute; reflexivity.
 Qed.
